@@ -28,15 +28,16 @@ TRUSTED = ["z3 5.1.0 / cvc5 1.0.3", "pyvc encoding of Python semantics (DESIGN 2
            "callee contracts proved under C01 (contracts/common_c.py): BpSeq.__regions, BpSeq.__make_dot_bracket, BpSeq.fcfs"]
 ASSUMPTIONS = [
     "levels30(self): the structure needs at most 30 levels under FCFS (precondition of BpSeq.fcfs, C01; property quantifier)",
-    "degree30(self) (definition lemma degree30_definition): no stem crosses more than 29 other stems, so that max_order = max "
-    "degree + 1 <= 30 = number of bracket types.  This is STRONGER than the property's 'needs at most 30 levels': for a structure "
+    "degree30(self) (definition lemma degree30_definition: for every stem a, a set S that holds exactly the stems crossing a has "
+    "len(S) <= 29): no stem crosses more than 29 other stems, so that max_order = max degree + 1 <= 30 = number of bracket types.  This is STRONGER than the property's 'needs at most 30 levels': for a structure "
     "with a stem crossing >= 30 others the model allows levels >= 30 and only the solver's optimality (not T-solver feasibility) "
     "could keep orders[i] < 30 - out of reach, such structures are excluded here",
     "esum_definition (definition): esum(k, n) is the running sum of the values of the first n variables of list-sum constraint k",
     "numeral_definition / numeral_definition_all (definition): numeral(s) abbreviates 'matches [0-9]+'",
     "split3 (assumed fact about str.split): (a + '_' + b + '_' + c).split('_') == [a, b, c] when a, b, c contain no '_'",
     "int_str_roundtrip (assumed fact about int()/str()): for n >= 0, str(n) matches [0-9]+, contains no '_', and int(str(n)) == n",
-    "len() of a set of ints is the non-negative uninterpreted function len.set of the set value (engine, SET_CARD_FUNCTION)",
+    "len() of a set of ints is the uninterpreted function len.set of the set value, >= 0 and >= 1 for a set with a member "
+    "(engine, SET_CARD_FUNCTION); nothing else about cardinalities is used",
 ]
 EXPLANATION = (
     "Under contract (contracts/common_milp_c.py, real source re-read on every run): BpSeq.dot_bracket (solver selection: "
